@@ -41,6 +41,15 @@ Theorem C14_table_model_scopes :
 Proof. vm_compute. repeat split; reflexivity. Qed.
 Print Assumptions C14_table_model_scopes.
 
+(* Every timeout attribute a scope reads is derived in __init__ from constructor parameters
+   by a fallback chain that ends in a parameter the configuration always supplies
+   (connect/command timeout, the single timeout): `self.data_timeout = data_timeout or
+   command_timeout`.  Dropping the fallback leaves `Timeout(None)` scopes -- present in the
+   table, bounding nothing -- and breaks this obligation. *)
+Theorem C14_table_timeouts_have_fallback : timeouts_have_fallback timeout_table attr_defaults = true.
+Proof. vm_compute. reflexivity. Qed.
+Print Assumptions C14_table_timeouts_have_fallback.
+
 (* Server: for EVERY input timing (any chunks, any delays, any command interpreter) the
    session ends with exactly one closing event, no later than command_timeout after the
    last completed command, resp. the (cumulative) data timeout after DATA began; when it
@@ -106,3 +115,19 @@ Proof.
   destruct (a_lmtp a) eqn:L; unfold client_class; rewrite L; vm_compute; reflexivity.
 Qed.
 Print Assumptions C14_client_bound_table.
+
+(* ... for every way of configuring the client (each timeout given or omitted: omitted
+   connect/command default to 10 s, an omitted data timeout falls back to the command
+   timeout), so a stall in the data stage of a client configured with command_timeout only
+   is cut after command_timeout. *)
+Theorem C14_client_bound_config :
+  forall (u : N) (r : rawcfg) (a : acfg) (ds : list (option N)),
+    match run_attempt (eff_ccfg u r) 0 0 (stages_of timeout_table a) ds with
+    | CDone t | CTimedOut _ t => t <= attempt_limit (eff_ccfg u r) a
+    | CStuck _ => False
+    end
+    /\ (r_data r = None -> t_data (eff_ccfg u r) = t_command (eff_ccfg u r)).
+Proof.
+  intros u r a ds. split; [apply C14_client_bound_table | apply eff_data_fallback].
+Qed.
+Print Assumptions C14_client_bound_config.
